@@ -422,6 +422,22 @@ func runParent(id, tier string, only *Shard) int {
 	} else {
 		shards = c.Shards(tier, seed)
 	}
+	// development aid (never set by a registered command): VERIF_SHARD_STRIDE=k/n keeps every n-th shard starting with
+	// the k-th, to spread a long thorough run over several sittings; the run is then reported as not exhaustive
+	stride := ""
+	if s := os.Getenv("VERIF_SHARD_STRIDE"); s != "" && only == nil {
+		var k, n int
+		if _, err := fmt.Sscanf(s, "%d/%d", &k, &n); err == nil && n > 1 {
+			var keep []Shard
+			for i, sh := range shards {
+				if i%n == k%n {
+					keep = append(keep, sh)
+				}
+			}
+			shards = keep
+			stride = "VERIF_SHARD_STRIDE=" + s + ": only every n-th shard was run"
+		}
+	}
 	par := 16
 	if s := os.Getenv("VERIF_PAR"); s != "" {
 		if v, err := strconv.Atoi(s); err == nil && v > 0 {
@@ -430,6 +446,7 @@ func runParent(id, tier string, only *Shard) int {
 	}
 	exe, _ := os.Executable()
 	total := &Result{Counters: map[string]int64{}, Distinct: map[string]map[string]bool{}, Violations: map[string]*Violation{}, FD: map[string]map[string]*FDEntry{}}
+	total.Inexhaustive = stride
 	var mu sync.Mutex
 	sem := make(chan struct{}, par)
 	var wg sync.WaitGroup
